@@ -19,6 +19,21 @@ import Ark.Model.Proto
     filter <fid> <k> <n> <off> <m> <suboff>       filterat … <tau>
     reindex <fid> <k> <n> <m> <idx>
     distpow <fid> <g> <c> <list>      bitrevperm <width> <list>
+  additions (trait getters / defaults, in-place transforms, `Evaluations` API):
+    newcoset <fid> <k> <n> <off>                  D::new_coset(n, off)
+    getters <fid> <k> <n> <off>                   the nine trait getters of the coset domain
+    fftip | ifftip | fftiplong | ifftiplong <fid> <k> <n> <off> <list>    fft_in_place / ifft_in_place
+    mulevals <fid> <k> <n> <off> <a> <b>          mul_polynomials_in_evaluation_domain
+    mulpoly  <fid> <k> <n> <off> <a> <b>          ifft(mul_polynomials_in_evaluation_domain(fft a, fft b))
+    sampleout <fid> <k> <n> <off> <seed>          sample_element_outside_domain (verdict only)
+    evzero | evdom <fid> <k> <n> <off> [<list>]   Evaluations::zero / Evaluations::domain()
+    evidx <fid> <k> <n> <off> <list> <i>          Evaluations[i]
+    evscale <fid> <k> <n> <off> <list> <c>        &Evaluations * c
+    evadd|evsub|evmul|evdiv[as] <fid> <k> <n> <off> <n2> <off2> <a> <b>   &a ⊕ &b  /  a ⊕= &b
+    ser  <fid> <k> <n> <off> <c|u>                serialize_with_mode / serialized_size / deserialize_with_mode
+                                                  of the domain: `<bytes> <size> <round trip>`
+    serx <fid> <k> <n> <off> <v2|vff|trunc>       deserialization of a damaged encoding (bad variant byte, truncated)
+    evser <fid> <k> <n> <off> <list> <c|u>        the same for `Evaluations` (derived impls)
   Output `(model, verdict)`; the verdict is the executable specification on `Nat` (Horner
   evaluation, product formulas, orders of elements by modular exponentiation) applied to the
   implementation's output.
@@ -216,6 +231,66 @@ def sparseStr (l : List (Nat × Nat)) : String :=
 def bitrevSpec (k width : Nat) : Nat :=
   (List.range width).foldl (fun r i => r * 2 + (k / 2 ^ i) % 2) 0
 
+/-- schoolbook product of coefficient lists mod `p` (length `la + lb − 1`, `[]` if one is empty) -/
+def convNat (p : Nat) (a b : List Nat) : Array Nat :=
+  if a.isEmpty || b.isEmpty then #[] else
+  let bz := b.toArray
+  ((List.range a.length).zip a).foldl (fun (acc : Array Nat) (i, ai) =>
+    (List.range bz.size).foldl (fun (acc : Array Nat) j =>
+      acc.modify (i + j) (fun v => (v + ai * bz[j]!) % p)) acc)
+    (Array.replicate (a.length + b.length - 1) 0)
+
+/-- `A·B mod (X^N − c)` as `N` coefficients: `r_k = Σ_j full[k + jN]·c^j` -/
+def mulModVanish (p : Nat) (a b : List Nat) (N c : Nat) : List Nat :=
+  let full := convNat p a b
+  (List.range N).map (fun k =>
+    ((List.range (full.size / N + 1)).foldl (fun (st : Nat × Nat) j =>
+      ((st.1 + full.getD (k + j * N) 0 * st.2) % p, (st.2 * c) % p)) (0, 1 % p)).1)
+
+/-- pointwise `a_i ⊕ b_i` on lists of equal length -/
+def pointwise (f : Nat → Nat → Nat) (a b : List Nat) : List Nat := List.zipWith f a b
+
+/-! ### byte encodings (`CanonicalSerialize`): little-endian integers, field elements in
+    `⌈bits(p)/8⌉` bytes, `Vec` = `u64` length then the elements -/
+
+def leBytes (n w : Nat) : List Nat := (List.range w).map (fun i => (n >>> (8 * i)) % 256)
+def fromLE (bs : List Nat) : Nat := bs.foldr (fun b acc => b + 256 * acc) 0
+def bytesHex (bs : List Nat) : String :=
+  if bs.isEmpty then "_" else String.ofList (bs.flatMap (fun b => [hexChar (b / 16), hexChar (b % 16)]))
+def parseBytesAux : List Char → Option (List Nat)
+  | [] => some []
+  | [_] => none
+  | a :: b :: r => do
+    let x ← hexDigit? a; let y ← hexDigit? b; let t ← parseBytesAux r
+    pure ((16 * x + y) :: t)
+def parseBytes? (s : String) : Option (List Nat) := if s == "_" then some [] else parseBytesAux s.toList
+def feWidth (p : Nat) : Nat := (p.log2 + 1 + 7) / 8
+
+/-- the encoding of a domain given its nine fields: `[variant]` (general only), `size: u64`,
+    `log_size_of_group: u32`, seven field elements -/
+def domainBytes (general : Bool) (tag : String) (fw : Nat) (nine : List Nat) : List Nat :=
+  (if general then [if tag == "r" then 0 else 1] else []) ++
+  (match nine with
+   | size :: log :: fs => leBytes size 8 ++ leBytes log 4 ++ fs.flatMap (fun f => leBytes f fw)
+   | _ => [])
+
+/-- decoding by the format: `(tag, nine fields, remaining bytes)` -/
+def decodeDomain (general : Bool) (k : String) (fw : Nat) (bs : List Nat) : Option (String × List Nat × List Nat) := do
+  let (tag, bs) ← (if general then
+      (match bs with
+       | 0 :: r => some ("r", r)
+       | 1 :: r => some ("m", r)
+       | _ => none)
+    else some (k, bs))
+  if bs.length < 12 + 7 * fw then none
+  else
+    let size := fromLE (bs.take 8)
+    let log := fromLE ((bs.drop 8).take 4)
+    let fs := (List.range 7).map (fun i => fromLE ((bs.drop (12 + i * fw)).take fw))
+    some (tag, size :: log :: fs, bs.drop (12 + 7 * fw))
+
+def nineStr (tag : String) (nine : List Nat) : String := joinWith " " (tag :: nine.map hex)
+
 /-! ### model side -/
 
 section Run
@@ -343,6 +418,21 @@ def run (cache : Cache) (op : String) (args : List String) (impl : String) :
           | some (t, l) => if t != tagOf base then "bad:variant" else checkDomain p t base.dom.size off l
           | none => "bad:format"
       out m v
+    | "newcoset", [k, n, off] =>
+      let n ← parseHex? n; let off ← parseHex? off
+      let m := match newCoset (newDom P k n) (fe p off) with
+        | .panic => "panic" | .ok none => "none" | .ok (some g) => domStr (tagOf g) g.dom
+      let v := if impl == "panic" then "bad:panic"
+        else match specNew fi k n, impl == "none" with
+          | none, true => "ok"
+          | none, false => "bad:want=none"
+          | some _, true => if off % p == 0 then "ok" else "bad:none"
+          | some (tag, size), false =>
+            if off % p == 0 then "bad:want=none"
+            else match parseDomLine impl with
+            | some (t, l) => if t != tag then "bad:variant:want=" ++ tag else checkDomain p tag size off l
+            | none => "bad:format"
+      out m v
     | "distpow", [g, c, l] =>
       let g ← parseHex? g; let c ← parseHex? c; let l ← parseList? l
       let m := hexFs (distributePowersAndMulByConst (l.map (fe p)) (fe p g) (fe p c))
@@ -377,7 +467,7 @@ def run (cache : Cache) (op : String) (args : List String) (impl : String) :
         out (hex (element d i).val) (vs impl (hex ((h * powMod gen i p) % p)))
       | "elems", [] =>
         out (hexFs (elements d)) (vs impl (hexList (domElems p h gen N)))
-      | "fft", [l] =>
+      | "fft", [l] | "fftip", [l] =>
         let c ← parseList? l
         let m := outList (generalFft P g (c.map (fe p)))
         let v := if c.length > N then "bad:input-longer-than-domain"
@@ -386,7 +476,7 @@ def run (cache : Cache) (op : String) (args : List String) (impl : String) :
             | some ys => checkEvals p c h gen N ys
             | none => "bad:format"
         out m v
-      | "fftlong", [l] =>
+      | "fftlong", [l] | "fftiplong", [l] =>
         -- inputs longer than the domain (outside the property): the code truncates to `size`
         let c ← parseList? l
         let m := outList (generalFft P g (c.map (fe p)))
@@ -395,7 +485,7 @@ def run (cache : Cache) (op : String) (args : List String) (impl : String) :
             | some ys => checkEvals p (c.take N) h gen N ys
             | none => "bad:format"
         out m v
-      | "ifft", [l] =>
+      | "ifft", [l] | "ifftip", [l] =>
         let e ← parseList? l
         let m := outList (generalIfft P g (e.map (fe p)))
         let v := if e.length > N then "bad:input-longer-than-domain"
@@ -404,7 +494,7 @@ def run (cache : Cache) (op : String) (args : List String) (impl : String) :
             | some c => if c.length != N then "bad:len" else checkEvals p c h gen N (e ++ List.replicate (N - e.length) 0)
             | none => "bad:format"
         out m v
-      | "ifftlong", [l] =>
+      | "ifftlong", [l] | "ifftiplong", [l] =>
         let e ← parseList? l
         let m := outList (generalIfft P g (e.map (fe p)))
         let v := if impl == "panic" then "bad:panic"
@@ -492,6 +582,156 @@ def run (cache : Cache) (op : String) (args : List String) (impl : String) :
             let ls := lagrangeNaive p xs (tau % p)
             let w := ((xs.zip ls).foldl (fun acc (x, l) => if subEl.contains x then (acc + l) % p else acc) 0)
             if impl == hex w then "ok" else "note:filter-coset-scaling"
+        out m v
+      | "getters", [] =>
+        -- the nine trait getters (`size_as_field_element()` is the trait default `F::from(size)`)
+        let m := domStr (tagOf g) { d with sizeAsFieldElement := sizeAsFieldElement d }
+        let v := match specNew fi k n, parseDomLine impl with
+          | some (tag, size), some (t, l) =>
+            if t != tag then "bad:variant:want=" ++ tag else checkDomain p tag size off l
+          | none, _ => "bad:spec-no-domain"
+          | _, none => "bad:format"
+        out m v
+      | "evdom", [l] =>
+        -- `Evaluations::from_vec_and_domain(l, dom).domain()`: the struct fields of the stored domain
+        let _ ← parseList? l
+        let m := domStr (tagOf g) d
+        let v := match specNew fi k n, parseDomLine impl with
+          | some (tag, size), some (t, l) =>
+            if t != tag then "bad:variant:want=" ++ tag else checkDomain p tag size off l
+          | none, _ => "bad:spec-no-domain"
+          | _, none => "bad:format"
+        out m v
+      | "evzero", [] =>
+        out (hexFs (evalsZero d)) (vs impl (hexList (List.replicate N 0)))
+      | "evidx", [l, i] =>
+        let e ← parseList? l; let i ← parseHex? i
+        let m := match evalsIndex (e.map (fe p)) i with | .panic => "panic" | .ok x => hex x.val
+        out m (vs impl (match e[i]? with | some x => hex (x % p) | none => "panic"))
+      | "evscale", [l, c] =>
+        let e ← parseList? l; let c ← parseHex? c
+        out (hexFs (evalsMulScalar (e.map (fe p)) (fe p c))) (vs impl (hexList (e.map (fun x => (x * c) % p))))
+      | "mulevals", [a, b] =>
+        let a ← parseList? a; let b ← parseList? b
+        let m := outList (mulPolynomialsInEvaluationDomain (a.map (fe p)) (b.map (fe p)))
+        let v := if a.length != b.length then vs impl m   -- outside the contract (documented `assert_eq!`): behaviour recorded
+          else vs impl (hexList (pointwise (fun x y => (x * y) % p) a b))
+        out m v
+      | "mulpoly", [a, b] =>
+        -- coefficient vectors → evaluations → pointwise product → interpolation = A·B mod (X^N − h^N)
+        let a ← parseList? a; let b ← parseList? b
+        let m := match generalFft P g (a.map (fe p)), generalFft P g (b.map (fe p)) with
+          | .ok ea, .ok eb =>
+            (match mulPolynomialsInEvaluationDomain ea eb with
+             | .ok pr => outList (generalIfft P g pr)
+             | .panic => "panic")
+          | _, _ => "panic"
+        let v := if a.length > N || b.length > N then "bad:input-longer-than-domain"
+          else vs impl (hexList (mulModVanish p (a.map (· % p)) (b.map (· % p)) N (powMod h N p)))
+        out m v
+      | "ser", [_mode] =>
+        -- (compressed and uncompressed encodings of prime-field elements coincide)
+        let general := k == "g"
+        let fw := feWidth p
+        let nine := [d.size, d.logSizeOfGroup, d.sizeAsFieldElement.val, d.sizeInv.val, d.groupGen.val, d.groupGenInv.val,
+          d.offset.val, d.offsetInv.val, d.offsetPowSize.val]
+        let bytes := domainBytes general (tagOf g) fw nine
+        let m := bytesHex bytes ++ " " ++ hex bytes.length ++ " " ++ domStr (tagOf g) d
+        let v := match impl.splitOn " " with
+          | bs :: sz :: back =>
+            (match parseBytes? bs, parseHex? sz with
+             | some bl, some sz =>
+               if sz != bl.length then "bad:serialized_size"
+               else match decodeDomain general k fw bl, specNew fi k n with
+                 | some (tag, nn, rest), some (wtag, wsize) =>
+                   if !rest.isEmpty then "bad:trailing-bytes"
+                   else if tag != wtag then "bad:variant"
+                   else if joinWith " " back != nineStr tag nn then "bad:round-trip"
+                   else checkDomain p tag wsize off nn
+                 | none, _ => "bad:encoding"
+                 | _, none => "bad:spec-no-domain"
+             | _, _ => "bad:format")
+          | _ => "bad:format"
+        out m v
+      | "serx", [_what] =>
+        out "err" (vs impl "err")
+      | "evser", [l, _mode] =>
+        let e ← parseList? l
+        let general := k == "g"
+        let fw := feWidth p
+        let nine := [d.size, d.logSizeOfGroup, d.sizeAsFieldElement.val, d.sizeInv.val, d.groupGen.val, d.groupGenInv.val,
+          d.offset.val, d.offsetInv.val, d.offsetPowSize.val]
+        let bytes := leBytes e.length 8 ++ e.flatMap (fun x => leBytes (x % p) fw) ++ domainBytes general (tagOf g) fw nine
+        let m := bytesHex bytes ++ " " ++ hex bytes.length ++ " " ++ hexList (e.map (· % p)) ++ " " ++ domStr (tagOf g) d
+        let v := match impl.splitOn " " with
+          | bs :: sz :: ev :: back =>
+            (match parseBytes? bs, parseHex? sz with
+             | some bl, some sz =>
+               if sz != bl.length then "bad:serialized_size"
+               else
+                 let len := fromLE (bl.take 8)
+                 let body := bl.drop 8
+                 if len != e.length || body.length < len * fw then "bad:length-prefix"
+                 else
+                   let els := (List.range len).map (fun i => fromLE ((body.drop (i * fw)).take fw))
+                   if els != e.map (· % p) then "bad:elements"
+                   else if ev != hexList els then "bad:round-trip-evals"
+                   else match decodeDomain general k fw (body.drop (len * fw)), specNew fi k n with
+                     | some (tag, nn, rest), some (wtag, wsize) =>
+                       if !rest.isEmpty then "bad:trailing-bytes"
+                       else if tag != wtag then "bad:variant"
+                       else if joinWith " " back != nineStr tag nn then "bad:round-trip"
+                       else checkDomain p tag wsize off nn
+                     | none, _ => "bad:encoding"
+                     | _, none => "bad:spec-no-domain"
+             | _, _ => "bad:format")
+          | _ => "bad:format"
+        out m v
+      | "sampleout", [_seed] =>
+        -- verdict only: the sampled element is a canonical residue outside the coset domain
+        let v := if impl == "panic" then "bad:panic"
+          else match parseHex? impl with
+            | some w => if w ≥ p then "bad:noncanonical"
+                        else if powMod w N p == powMod h N p then "bad:element-in-domain" else "ok"
+            | none => "bad:format"
+        out "any" v
+      | _, [n2, off2, a, b] =>
+        let n2 ← parseHex? n2; let off2 ← parseHex? off2
+        let a ← parseList? a; let b ← parseList? b
+        let g2 ← cosetDom P k n2 off2
+        let same := generalDomainEq g g2
+        let fa := a.map (fe p); let fb := b.map (fe p)
+        let res ← (match op with
+          | "evadd" | "evaddas" => some (evalsBinAssign (· + ·) same fa fb)
+          | "evsub" | "evsubas" => some (evalsBinAssign (· - ·) same fa fb)
+          | "evmul" | "evmulas" => some (evalsBinAssign (· * ·) same fa fb)
+          | "evdiv" | "evdivas" => some (evalsDivAssign same fa fb)
+          | _ => none)
+        let m := outList res
+        -- spec: the two domains are the same coset iff sizes agree and the offsets agree;
+        -- documented `assert_eq!(…, "domains are unequal")` otherwise
+        let size2 := match specNew fi k n2 with | some (_, s) => s | none => 0
+        let sameSpec := size2 == N && off2 % p == h
+        let v :=
+          if !sameSpec then vs impl "panic"
+          else if impl == "panic" then "bad:panic"
+          else if a.length != b.length then vs impl m   -- zipped update of unequal lengths: behaviour recorded
+          else match parseList? impl with
+            | none => "bad:format"
+            | some r =>
+              if r.length != a.length then "bad:len"
+              else if op == "evdiv" || op == "evdivas" then
+                -- field division with the convention `x / 0 = 0` (what `batch_inversion` yields: zero entries stay zero)
+                let bad := (r.zip (a.zip b)).any (fun (ri, ai, bi) =>
+                  ri != (if bi % p == 0 then 0 else (ai * modInv bi p) % p))
+                if bad then "bad:quotient"
+                else if b.any (· % p == 0) then "note:evaluation-divided-by-zero" else "ok"
+              else
+                let f : Nat → Nat → Nat :=
+                  if op == "evadd" || op == "evaddas" then (fun x y => (x + y) % p)
+                  else if op == "evsub" || op == "evsubas" then (fun x y => subMod p x y)
+                  else (fun x y => (x * y) % p)
+                vs impl (hexList (pointwise f a b))
         out m v
       | _, _ => none
     | _, _ => none
